@@ -226,10 +226,23 @@ func (v *PacketDslVisitorImpl) VisitFieldDefinitionWithAttribute(ctx *gen.FieldD
 			if padChar == "'\\x00'" {
 				padChar = "'\x00'"
 			}
-			f.Attr.(*model.FixedStringFieldAttribute).Padding = &model.Padding{
+			fs, ok := f.Attr.(*model.FixedStringFieldAttribute)
+			if !ok {
+				v.BinModel.AddSyntaxError(&model.SyntaxError{
+					Line:   fieldAttr.GetStart().GetLine(),
+					Column: fieldAttr.GetStart().GetColumn(),
+					Msg:    "Padding attribute is only allowed on char[n] fields, not on field " + f.Name,
+				})
+				continue
+			}
+			// a MetaData-typed field shares its attribute object with the MetaData entry and with
+			// every other field of that type: the padding belongs to this field only
+			own := *fs
+			own.Padding = &model.Padding{
 				PadChar: padChar,
 				PadLeft: strings.Contains(fieldAttr.PaddingAttribute().PADDING_ATTR().GetText(), "left"),
 			}
+			f.Attr = &own
 		case fieldAttr.TagAttribute() != nil:
 			tagValue := fieldAttr.TagAttribute().DIGITS().GetText()
 			tagInt, _ := strconv.Atoi(tagValue)
